@@ -189,6 +189,34 @@ int main(int argc, char **argv)
         return 0;
     }
 
+    // Plain enumeration WITHOUT state merging: the BFS below merges histories that lead to the same handlers() list, which is
+    // only sound while handlers() is the whole state. A change that adds hidden state (a cached index, a counter) would be
+    // masked by the merge, so every sequence over the 11 non-null calls up to --nodedup-depth is also run on its own.
+    int nd = vx::argInt(argc, argv, "--nodedup-depth", 0);
+    int shard = vx::argInt(argc, argv, "--shard", 0), nshards = vx::argInt(argc, argv, "--nshards", 1);
+    if (nd > 0) {
+        const int NB = 11;
+        std::vector<int> h;
+        long long top = 0;
+        std::function<void()> rec = [&] {
+            if (!h.empty()) {
+                bool v = false;
+                runHistory(h, &sum, &v);
+                sum.cases++; sum.counters["sequences_without_state_merging"]++;
+                if (v) return;
+            }
+            if ((int)h.size() == nd) return;
+            for (int op = 0; op < NB; op++) {
+                if (h.size() == 1 && nd >= 2 && (top++ % nshards) != shard) continue;   // shard on the first two calls
+                h.push_back(op); rec(); h.pop_back();
+            }
+        };
+        if (nd < 2 && shard != 0) { sum.print(); return 0; }
+        rec();
+        sum.bound = "all call sequences <= " + std::to_string(nd) + " over 11 calls, no state merging";
+        if (depth <= 0) { sum.print(); return 0; }
+    }
+
     std::set<std::string> seen;
     std::vector<std::vector<int>> frontier { {} };
     seen.insert(runHistory({}, nullptr, nullptr));
